@@ -1165,9 +1165,10 @@ impl State {
                 let e = self
                     .dict_entry(&name)
                     .ok_or_else(|| Xerr::UnknownWord(name.clone()))?;
-                if let Entry::Function { immediate: true, .. } = e {
-                    // a build-time word works on the source being read: it is run by the
-                    // builder only, never as an instruction of the program
+                if let Entry::Function { immediate: true, xf: Xfn::Native(_), .. } = e {
+                    // a built-in build-time word works on the source being read: it is run
+                    // by the builder only, never as an instruction of the program (a
+                    // user-defined immediate word is compiled code like any other)
                     let msg = xeh_xstr!("late word resolves to a build-time word");
                     return Err(Xerr::ErrorMsg(msg));
                 }
